@@ -23,6 +23,7 @@ func init() {
 			"no interface/func field that has no writer anywhere is invoked (C13.never-assigned)",
 			"a pointer filled by errors.As is used only on the call's true edge (C13.as-failure)",
 			"the value result of a (value, error) call in the loader / pattern packages is stored, passed on or dereferenced only where that error is known nil or the value non-nil (C13.value-before-err)",
+			"a constant index into the result of strings.Split*/Fields* is within what the splitter guarantees or under a length test of that slice (C13.const-index)",
 			"no single-result type assertion on decoded values in the loader packages (C13.assert-ok); submatch indices ≤ groups of the constant pattern (C13.submatch)",
 			"the executor-config normaliser descends into both container kinds yaml.v2 produces, map[any]any and []any (C13.serialisable); SyncMap keys are strings",
 			"signalOnStop is stored only when SignalNum of that same value is non-zero; Schedule values only from expressions the cron parser accepted; a step only after its validator returned nil; a DAG only when the error list is empty and every builder error is added to it (C13.validity)",
@@ -51,6 +52,7 @@ func runC13(e *Env) {
 	c.asFailure()
 	c.assertOK()
 	c.valueBeforeErr()
+	c.constIndex()
 	c.submatch()
 	c.serialisable()
 	c.validity()
@@ -454,6 +456,95 @@ func (c *c13) assertOK() {
 	}
 	if n == 0 {
 		r.OK("no single-result type assertion in packages dag / patternutil", "-", "expected count is zero; the thorough tier checks a positive example in the variant suite")
+	}
+}
+
+// constIndex: a constant index into the result of a string splitter needs the
+// length the splitter does not guarantee. strings.Split / SplitN / SplitAfter
+// with a non-empty separator return at least one element (index 0 is always
+// safe); strings.Fields / FieldsFunc may return none. Any higher index must be
+// dominated by a length test of that same slice.
+func (c *c13) constIndex() {
+	e, r := c.e, c.e.R
+	r.Rule("C13.const-index", "DCS", "constant index into a splitter's result is covered by the splitter's guarantee or a length test", 1)
+	var fns []*ssa.Function
+	for f := range c.scope {
+		fns = append(fns, f)
+	}
+	sort.Slice(fns, func(i, j int) bool { return fns[i].Pos() < fns[j].Pos() })
+	producer := func(v ssa.Value) (guaranteed int64, name string, ok bool) {
+		call, isC := ir.Resolve(v).(*ssa.Call)
+		if !isC {
+			return 0, "", false
+		}
+		n := ir.CalleeName(&call.Call)
+		switch n {
+		case "strings.Split", "strings.SplitAfter":
+			if sep, isS := ir.ConstString(call.Call.Args[1]); isS && sep != "" {
+				return 1, n, true
+			}
+			return 0, n, true
+		case "strings.SplitN", "strings.SplitAfterN":
+			sep, isS := ir.ConstString(call.Call.Args[1])
+			cnt, isK := ir.ConstInt(call.Call.Args[2])
+			if isS && sep != "" && isK && cnt != 0 {
+				return 1, n, true
+			}
+			return 0, n, true
+		case "strings.Fields", "strings.FieldsFunc":
+			return 0, n, true
+		}
+		return 0, "", false
+	}
+	n := 0
+	for _, f := range fns {
+		for _, b := range f.Blocks {
+			for _, in := range b.Instrs {
+				var base, idx ssa.Value
+				switch x := in.(type) {
+				case *ssa.IndexAddr:
+					base, idx = x.X, x.Index
+				case *ssa.Index:
+					base, idx = x.X, x.Index
+				default:
+					continue
+				}
+				k, isK := ir.ConstInt(idx)
+				if !isK || k < 0 {
+					continue
+				}
+				g, name, isP := producer(base)
+				if !isP {
+					continue
+				}
+				n++
+				ok := k < g
+				if !ok {
+					for _, l := range e.DCS(in) {
+						if l.Kind != "cmp" {
+							continue
+						}
+						lx, xIsLen := lenArg(l.X)
+						ly, yIsLen := lenArg(l.Y)
+						switch {
+						case yIsLen && ir.Resolve(ly) == ir.Resolve(base): // c < len, c <= len
+							if cst, isC := ir.ConstInt(l.X); isC && ((l.Op == token.LSS && cst >= k) || (l.Op == token.LEQ && cst > k)) {
+								ok = true
+							}
+						case xIsLen && ir.Resolve(lx) == ir.Resolve(base): // len == c
+							if cst, isC := ir.ConstInt(l.Y); isC && l.Op == token.EQL && cst > k {
+								ok = true
+							}
+						}
+					}
+				}
+				r.Check(ok, shortName(f)+": index "+sprintf("%d", k)+" of "+name+"(…) is within what the splitter guarantees or a dominating length test", e.InstrPos(in),
+					"a fixed index into the pieces of a split string is not covered by a length test: an input without the expected separator panics the loader with an index out of range", e.FactsStr("dominating conditions: ", e.DCS(in)))
+			}
+		}
+	}
+	if n == 0 {
+		r.OK("no constant index into a string splitter's result in the loader packages", "-", "")
 	}
 }
 
